@@ -49,6 +49,9 @@ type World struct {
 	T    *sim.Tape
 	Tier string
 	Cfg  string
+	// ShimChunked: the browser side sends its websocket-shim posts with chunked
+	// transfer encoding (no Content-Length), as clients do for streamed bodies
+	ShimChunked bool
 
 	mu     sync.Mutex
 	viols  []violation
